@@ -700,7 +700,8 @@ def judge_case(ctx, case, R, M, S, L, shrink=True):
         if ev[0] in ("prod", "cons") and ev[2] and not bad and o.has_dynamic_coef(ev[1]):
             finding = F_SCALED_DYN
         verdict_case = _sub(case, i)
-        if json.dumps(r, sort_keys=True) != json.dumps(s, sort_keys=True) and shrink and not (finding and finding in ctx.known):
+        if (json.dumps(r, sort_keys=True) != json.dumps(s, sort_keys=True) and shrink and len(ctx.violations) < 3
+                and not (finding and finding in ctx.known)):
             verdict_case = _shrink(ctx, case, i, lambda c: _differs(c, bad))
             (r2, m2, s2, _), = evaluate([verdict_case], M is not None)
             k = len(verdict_case["events"]) - 1
@@ -793,7 +794,11 @@ def run(ctx):
     ex = exhaustive_cases()
     for case, (R, M, S, L) in zip(ex, evaluate(ex, ctx.driver_ok)):
         judge_case(ctx, case, R, M, S, L)
+        if len(ctx.violations) > 10:
+            break
     n = ctx.n(500, 12000)
+    if len(ctx.violations) > 10:
+        n = 0
     if not ctx.proof_ok:
         n = max(n, 3000)
     batch = 100
